@@ -1,5 +1,264 @@
 package main
 
-func thorough(id string, prop *Property, p *Prog, cov map[string]any, undec *[]string) {}
+import (
+	"fmt"
+	"os"
+	"os/exec"
+	"path/filepath"
+	"sort"
+	"strings"
+	"time"
+)
 
-func runMutantsCLI() int { return 0 }
+// ---------------------------------------------------------------------------------------
+// Thorough tier: both-ways testing of the rules with one-instance mutants on scratch copies.
+// ---------------------------------------------------------------------------------------
+
+type hunk struct{ file, old, new string }
+
+type mutant struct {
+	name  string
+	rules []string
+	props []string
+	note  string
+	hunks []hunk
+}
+
+func parseMutant(path string) (*mutant, error) {
+	b, err := os.ReadFile(path)
+	if err != nil {
+		return nil, err
+	}
+	m := &mutant{}
+	lines := strings.Split(string(b), "\n")
+	for i := 0; i < len(lines); i++ {
+		l := lines[i]
+		switch {
+		case strings.HasPrefix(l, "# "):
+			m.note = strings.TrimPrefix(l, "# ")
+		case strings.HasPrefix(l, "name: "):
+			m.name = strings.TrimPrefix(l, "name: ")
+		case strings.HasPrefix(l, "rules: "):
+			m.rules = strings.Fields(strings.TrimPrefix(l, "rules: "))
+		case strings.HasPrefix(l, "properties: "):
+			m.props = strings.Fields(strings.TrimPrefix(l, "properties: "))
+		case strings.HasPrefix(l, "file: "):
+			h := hunk{file: strings.TrimPrefix(l, "file: ")}
+			if i+1 >= len(lines) || lines[i+1] != "<<<<old" {
+				return nil, fmt.Errorf("%s: expected <<<<old after file", path)
+			}
+			i += 2
+			var old, nw []string
+			for ; i < len(lines) && lines[i] != "====new"; i++ {
+				old = append(old, lines[i])
+			}
+			i++
+			for ; i < len(lines) && lines[i] != ">>>>end"; i++ {
+				nw = append(nw, lines[i])
+			}
+			h.old, h.new = strings.Join(old, "\n"), strings.Join(nw, "\n")
+			m.hunks = append(m.hunks, h)
+		}
+	}
+	if m.name == "" || len(m.rules) == 0 || len(m.hunks) == 0 {
+		return nil, fmt.Errorf("%s: incomplete mutant", path)
+	}
+	return m, nil
+}
+
+func loadMutants(dir string) []*mutant {
+	files, _ := filepath.Glob(filepath.Join(dir, "*.mut"))
+	sort.Strings(files)
+	var out []*mutant
+	for _, f := range files {
+		m, err := parseMutant(f)
+		if err != nil {
+			fmt.Fprintln(os.Stderr, "mutant:", err)
+			continue
+		}
+		out = append(out, m)
+	}
+	return out
+}
+
+type mutantResult struct {
+	Name    string   `json:"name"`
+	Note    string   `json:"note"`
+	Rules   []string `json:"rules"`
+	Status  string   `json:"status"` // killed | MISSED | not-applicable | invalid
+	Reports []string `json:"reports,omitempty"`
+	WallS   float64  `json:"wall_s"`
+}
+
+func copyTree(src, dst string) error {
+	return filepath.Walk(src, func(path string, info os.FileInfo, err error) error {
+		if err != nil {
+			return err
+		}
+		rel, _ := filepath.Rel(src, path)
+		if info.IsDir() {
+			if info.Name() == ".git" {
+				return filepath.SkipDir
+			}
+			return os.MkdirAll(filepath.Join(dst, rel), 0o755)
+		}
+		if !info.Mode().IsRegular() {
+			return nil
+		}
+		b, err := os.ReadFile(path)
+		if err != nil {
+			return err
+		}
+		return os.WriteFile(filepath.Join(dst, rel), b, 0o644)
+	})
+}
+
+// runMutant applies m to a scratch copy of repo, runs its rules in a child process and removes the copy.
+func runMutant(repo string, m *mutant) mutantResult {
+	start := time.Now()
+	res := mutantResult{Name: m.name, Note: m.note, Rules: m.rules}
+	defer func() { res.WallS = time.Since(start).Seconds() }()
+	// anchors present?
+	for _, h := range m.hunks {
+		b, err := os.ReadFile(filepath.Join(repo, h.file))
+		if err != nil || (h.old != "__APPEND__" && strings.Count(string(b), h.old) != 1) {
+			res.Status = "not-applicable"
+			return res
+		}
+	}
+	tmp, err := os.MkdirTemp("", "kzmut-")
+	if err != nil {
+		res.Status = "invalid"
+		return res
+	}
+	defer os.RemoveAll(tmp)
+	if err := copyTree(repo, tmp); err != nil {
+		res.Status = "invalid"
+		return res
+	}
+	for _, h := range m.hunks {
+		p := filepath.Join(tmp, h.file)
+		b, _ := os.ReadFile(p)
+		var s string
+		if h.old == "__APPEND__" {
+			s = string(b) + h.new
+		} else {
+			s = strings.Replace(string(b), h.old, h.new, 1)
+		}
+		os.WriteFile(p, []byte(s), 0o644)
+	}
+	self, _ := os.Executable()
+	cmd := exec.Command(self, "-repo", tmp, "-verif", *flagVerif, "-rule", strings.Join(m.rules, ","))
+	out, err := cmd.CombinedOutput()
+	code := 0
+	if ee, ok := err.(*exec.ExitError); ok {
+		code = ee.ExitCode()
+	} else if err != nil {
+		code = 2
+	}
+	for _, l := range strings.Split(string(out), "\n") {
+		l = strings.TrimSpace(l)
+		if strings.HasPrefix(l, "REPORT ") {
+			l = strings.ReplaceAll(l, tmp+"/", "")
+			if len(l) > 220 {
+				l = l[:220] + "..."
+			}
+			res.Reports = append(res.Reports, l)
+		}
+	}
+	switch {
+	case code == 1 && len(res.Reports) > 0:
+		res.Status = "killed"
+	case code == 2:
+		res.Status = "invalid"
+		for _, l := range strings.Split(string(out), "\n") {
+			if strings.Contains(l, "UNDECIDED") || strings.Contains(l, "load error") {
+				res.Reports = append(res.Reports, strings.TrimSpace(l))
+				break
+			}
+		}
+	default:
+		res.Status = "MISSED"
+	}
+	return res
+}
+
+func thorough(id string, prop *Property, p *Prog, cov map[string]any, undec *[]string) {
+	ms := loadMutants(filepath.Join(*flagVerif, "mutants"))
+	var results []mutantResult
+	killed, missed, na, invalid := 0, 0, 0, 0
+	for _, m := range ms {
+		match := false
+		for _, pr := range m.props {
+			if pr == id {
+				match = true
+			}
+		}
+		if !match {
+			continue
+		}
+		r := runMutant(p.Root, m)
+		results = append(results, r)
+		switch r.Status {
+		case "killed":
+			killed++
+		case "MISSED":
+			missed++
+		case "not-applicable":
+			na++
+		default:
+			invalid++
+		}
+		fmt.Printf("   mutant %-28s %-14s %s\n", m.name, r.Status, strings.Join(m.rules, ","))
+	}
+	cov["mutants"] = results
+	cov["mutants_killed"] = killed
+	cov["mutants_missed"] = missed
+	cov["mutants_not_applicable"] = na
+	cov["mutants_invalid"] = invalid
+	cov["mutants_explanation"] = "checker self-test: each mutant is a one-instance breakage of the property's mechanism applied to a scratch copy of the tree under analysis (deleted afterwards) and analysed by the same rule code in a child process; 'killed' = the named rule reported it. Mutants exercise the checker only and never decide the verdict on /repo. not-applicable = the mutant's anchor text is absent from the analysed tree."
+	if missed > 0 && os.Getenv("KZ_STRICT_MUTANTS") != "" {
+		*undec = append(*undec, fmt.Sprintf("checker self-test: %d mutant(s) not reported", missed))
+	}
+}
+
+func runMutantsCLI() int {
+	ms := loadMutants(filepath.Join(*flagVerif, "mutants"))
+	bad := 0
+	only := map[string]bool{}
+	for _, a := range flagArgs() {
+		only[a] = true
+	}
+	for _, m := range ms {
+		if *flagProperty != "" {
+			match := false
+			for _, pr := range m.props {
+				if pr == *flagProperty {
+					match = true
+				}
+			}
+			if !match {
+				continue
+			}
+		}
+		if len(only) > 0 && !only[m.name] {
+			continue
+		}
+		r := runMutant(*flagRepo, m)
+		fmt.Printf("%-28s %-14s %-24s %.1fs\n", m.name, r.Status, strings.Join(m.rules, ","), r.WallS)
+		if r.Status != "killed" {
+			bad++
+			for _, l := range r.Reports {
+				fmt.Println("     ", l)
+			}
+		} else if os.Getenv("KZ_VERBOSE") != "" {
+			for _, l := range r.Reports {
+				fmt.Println("     ", l)
+			}
+		}
+	}
+	if bad > 0 {
+		return 1
+	}
+	return 0
+}
